@@ -119,7 +119,12 @@ def apply_edit(t, lib, e):
     elif kind == "remove_equation":
         del holder["eqs"][e["index"]]
     elif kind == "add_class":
-        holder["classes"].append(copy.deepcopy(e["desc"]))
+        # classes[c.name] = c: a class of that name that is already there is replaced (and keeps its place)
+        nd = copy.deepcopy(e["desc"])
+        if any(c["name"] == nd["name"] for c in holder["classes"]):
+            holder["classes"] = [nd if c["name"] == nd["name"] else c for c in holder["classes"]]
+        else:
+            holder["classes"].append(nd)
     elif kind == "remove_class":
         holder["classes"] = [c for c in holder["classes"] if c["name"] != e["name"]]
     return None
@@ -550,13 +555,31 @@ def gen_history(ctx, rng, nops):
                     ops.append(["edit", j, dict(kind="add_symbol", cls=x, name=name, text=text), False])
                     xd["comps"].append(dict(name=name, text=text))
                 else:
+                    # a new definition under the same name: changed values of its own declarations, a changed nested
+                    # class, a new declaration -- put in place with remove_class + add_class, or with add_class alone
                     nd = copy.deepcopy(xd)
-                    nd["comps"].append(dict(name=name, text=text))
+                    for k in nd["comps"]:
+                        k["text"] = re.sub(r"= (\d+);$", lambda mm: "= %d;" % (int(mm.group(1)) + 100), k["text"])
+                    sub = [c for c in nd["classes"] if c["short"] is None and c["kind"] in ("model", "record", "block")]
+                    if sub:
+                        sn = fresh_name("s")
+                        rng.choice(sub)["comps"].append(dict(name=sn, text="Real %s(start = %d);" % (sn, rng.randint(1, 9))))
+                    if nd["kind"] == "package":
+                        nd["comps"].append(dict(name=name, text="constant Real %s = %d;" % (name, rng.randint(1, 9))))
+                    else:
+                        nd["comps"].append(dict(name=name, text=text))
                     holder = a04.find_desc(dj, x[:-1]) if x[:-1] else dj
-                    ops.append(["edit", j, dict(kind="remove_class", parent=x[:-1], name=x[-1],
-                                                how=rng.choice(["registered", "find_class", "find_class_root", "deepcopy"])), False])
-                    ops.append(["edit", j, dict(kind="add_class", parent=x[:-1], desc=copy.deepcopy(nd)), False])
-                    holder["classes"] = [c for c in holder["classes"] if c["name"] != x[-1]] + [nd]
+                    if rng.random() < 0.5:
+                        ops.append(["edit", j, dict(kind="remove_class", parent=x[:-1], name=x[-1],
+                                                    how=rng.choice(["registered", "find_class", "find_class_root", "deepcopy"])), False])
+                        ops.append(["edit", j, dict(kind="add_class", parent=x[:-1], desc=copy.deepcopy(nd)), False])
+                        holder["classes"] = [c for c in holder["classes"] if c["name"] != x[-1]] + [nd]
+                    else:
+                        ops.append(["edit", j, dict(kind="add_class", parent=x[:-1], desc=copy.deepcopy(nd)), False])
+                        holder["classes"] = [nd if c["name"] == x[-1] else c for c in holder["classes"]]
+                    for c in nd["classes"]:
+                        if c["short"] is None and c["kind"] != "function" and rng.random() < 0.7:
+                            ops.append(["flatten", j, x + [c["name"]], "direct"])
                 ops.append(["flatten", j, u, "direct"])
                 ops.append(["flatten", j, x, rng.choice(["direct", "copy"])])
                 ops.append(["flatten", rng.randrange(len(descs)), rng.choice(us), "direct"])
